@@ -1,4 +1,5 @@
 import ButlerModel.Model.Conc
+import ButlerModel.Model.Lock
 /-! # C20 — concurrent clients behave as if they ran one after another -/
 namespace C20
 open Conc
@@ -146,3 +147,46 @@ theorem reuse_sequential_orders_keep_it :
 example : Clear 10 7 (.put 2 11 8 200) := by simp [Clear]
 
 end C20
+
+/-! ## A failed block against a put into the same slot (two clients, one waiting for the other's lock) -/
+namespace C20.FailedBlock
+open Lock
+
+/-- B arriving after A's last step is B arriving at A's last step. -/
+theorem late_arrival (order : List AStep) : ∀ (k : Nat) (bDone : Bool) (s : S), order.length ≤ k →
+    exec order (k + 1) bDone s = exec order k bDone s := by
+  induction order with
+  | nil => intro k bDone s _; rfl
+  | cons st rest ih =>
+    intro k bDone s hk
+    simp only [List.length_cons] at hk
+    obtain ⟨k', rfl⟩ : ∃ k', k = k' + 1 := ⟨k - 1, by omega⟩
+    simp only [exec, Nat.add_sub_cancel]
+    have h1 : (k' + 1 + 1 == 0) = false := by simp
+    have h2 : (k' + 1 == 0) = false := by simp
+    simp only [h1, h2, Bool.and_false, Bool.false_and, Bool.or_false, Bool.false_eq_true, if_false]
+    exact ih k' bDone (applyA s st) (by omega)
+
+/-- **Whenever client B's put arrives — before, between or after the two steps in which client A's failed block is
+undone — the outcome is the sequential one**: B's dataset is registered and the artifact holds B's content.  (B waits for
+the write lock, and the lock is released only after A's undo has removed A's artifact.) -/
+theorem failed_block_vs_put_serializable (k : Nat) : exec sourceOrder k false start = sequential := by
+  have h : ∀ n, exec sourceOrder (2 + n) false start = sequential := by
+    intro n
+    induction n with
+    | zero => decide
+    | succ n ih => rw [← Nat.add_assoc, late_arrival sourceOrder (2 + n) false start (by simp [sourceOrder])]; exact ih
+  match k with
+  | 0 => decide
+  | 1 => decide
+  | k + 2 => rw [Nat.add_comm]; exact h k
+
+/-- **Witness: with the two steps in the other order** (registry released first, artifact undone afterwards — what nesting
+the two context managers the other way round gives) a put that was waiting for the lock lands in between, and A's undo then
+deletes *B's* artifact: B's dataset is registered and unreadable, an outcome no sequential order gives. -/
+theorem swapped_order_loses_artifact :
+    exec swappedOrder 0 false start = { locked := false, row := some .b, file := none } ∧
+    exec swappedOrder 1 false start = { locked := false, row := some .b, file := none } ∧
+    exec swappedOrder 1 false start ≠ sequential := by decide
+
+end C20.FailedBlock
